@@ -871,7 +871,7 @@ def run(chk: core.Check):
             raw = f"{type(e).__name__}: {e}"
         if not same:
             yaml_bad += 1
-            chk.fail("the YAML form of the document loads differently from the JSON form", {"doc": doc, "yaml": text}, {"loaded": raw})
+            chk.fail("the YAML form of the document loads differently from the JSON form", {"doc": doc, "yaml": text}, {"loaded": repr(raw)[:3000]})
     chk.stages["search_json_vs_yaml"] = {"documents": n_yaml, "differences": yaml_bad}
 
     # ---- listed findings
